@@ -170,7 +170,7 @@ class StubSampler(optuna.samplers.BaseSampler):
         return -123.0 if isinstance(dist, optuna.distributions.FloatDistribution) else dist.choices[0] if hasattr(dist, "choices") else dist.low
 
 
-def make_pop_body(kind, n_workers, n_queued, producers, offset_opts=(0, 2)):
+def make_pop_body(kind, n_workers, n_queued, producers, offset_opts=(0, 2), coarse=False):
     def body():
         offset = sx.choose(list(offset_opts), "id_offset")
         st0, mk = mk_backend(kind, offset)
@@ -193,8 +193,11 @@ def make_pop_body(kind, n_workers, n_queued, producers, offset_opts=(0, 2)):
                 main.add_trial(create_trial(state=TrialState.WAITING, user_attrs={"q": q}, system_attrs={"fixed_params": {"x": v, "c": "b"}}))
             num = main._storage.get_all_trials(sid, deepcopy=False)[-1].number
             qvals[num] = v
+        # coarse: scheduling points only before the calls that read or write the queue (the other storage calls of ask() touch the
+        # worker's own trial or immutable study data and commute with everything)
+        only = {"get_all_trials", "set_trial_state_values", "create_new_trial"} if coarse else None
         for s in studies:
-            s._storage = Stepwise(s._storage, sched)
+            s._storage = Stepwise(s._storage, sched, only=only)
         got = []
 
         def worker(k):
@@ -301,9 +304,9 @@ def obligations(tier):
                    describe="finish + second ask interleaved, ids offset by another study"),
     ]
     if not q:
-        obs.append(Obligation("pop-inmemory-3w", make_pop_body("inmemory", 3, 3, {}), setup, CODE, bounds=dict(workers=3, queued=3),
+        obs.append(Obligation("pop-inmemory-3w", make_pop_body("inmemory", 3, 3, {}, coarse=True), setup, CODE, bounds=dict(workers=3, queued=3, scheduling_points="queue calls only"),
                               shard_depth=7, budget_s=3000, classify=classify, require_reach=["asked", "queued-trial-claimed"], describe="3 workers, 3 queued"))
-        obs.append(Obligation("pop-journal-3w", make_pop_body("journal", 3, 2, {0: "enqueue-then-ask"}, offset_opts=(0,)), setup, CODE,
+        obs.append(Obligation("pop-journal-3w", make_pop_body("journal", 3, 2, {0: "enqueue-then-ask"}, offset_opts=(0,), coarse=True), setup, CODE,
                               bounds=dict(workers=3, queued=2), shard_depth=7, budget_s=3000, classify=classify,
                               require_reach=["asked", "queued-trial-claimed"], describe="3 journal workers with a producer"))
     return obs
